@@ -83,18 +83,22 @@ func (p editProc) run(nodes []*html.Node) error {
 func (p editProc) PreProcess(nodes []*html.Node) error  { return p.run(nodes) }
 func (p editProc) PostProcess(nodes []*html.Node) error { return p.run(nodes) }
 
+// testFuncs are registered on every engine: a function with an int parameter makes the Go type
+// of a front-matter value observable.
+var testFuncs = vuego.FuncMap{"times3": func(n int) int { return n * 3 }}
+
 func newRoot(fs iofs.FS, proc string) vuego.Template {
 	if proc == procNone {
-		return vuego.NewFS(fs)
+		return vuego.NewFS(fs, vuego.WithFuncs(testFuncs))
 	}
 	if proc == procLess {
-		return vuego.NewFS(fs, vuego.WithLessProcessor())
+		return vuego.NewFS(fs, vuego.WithFuncs(testFuncs), vuego.WithLessProcessor())
 	}
-	return vuego.NewFS(fs, vuego.WithProcessor(editProc{proc}))
+	return vuego.NewFS(fs, vuego.WithFuncs(testFuncs), vuego.WithProcessor(editProc{proc}))
 }
 
 func newVue(fs iofs.FS, proc string) *vuego.Vue {
-	v := vuego.NewVue(fs)
+	v := vuego.NewVue(fs).Funcs(testFuncs)
 	if proc == procLess {
 		return v.RegisterNodeProcessor(vuego.NewLessProcessor(fs))
 	}
